@@ -276,7 +276,7 @@ theorem inWindow_lower (p : Par) (bs : List Blk) (h : inWindow p bs = true) :
 
 /-- a good CDS inside the exon bounds lies in every window that contains the exons -/
 theorem inWindow_cds (p : Par) (e0 c0 : Blk) (erest crest : List Blk)
-    (hge : good (e0 :: erest) = true) (hgc : good (c0 :: crest) = true)
+    (_hge : good (e0 :: erest) = true) (hgc : good (c0 :: crest) = true)
     (h1 : e0.1 ≤ c0.1) (h2 : (lastOf c0 crest).2 ≤ (lastOf e0 erest).2)
     (hw : inWindow p (e0 :: erest) = true) : inWindow p (c0 :: crest) = true := by
   cases p with
@@ -420,8 +420,42 @@ theorem featCore_eq (rep chromRel : Bool) (x : Iv) (score : Nat) (rgb : Nat × N
     | true => simp only [hc, if_true]
     | false =>
       simp only [hc, Bool.false_eq_true, if_false]
-      cases chunkBlocks x.par (e0 :: erest) with
-      | none => rfl
-      | some l => cases l <;> rfl
+
+/-- the constructor's own checks put every accepted interval with good block lists into the domain `wf`
+    (in particular they give `thick ⊆ [start, end]`) -/
+theorem mkIv_wf (exons : List Blk) (st : Strand) (cds : Option (List Blk)) (sn sy id : Option (List Char))
+    (par : Par) (x : Iv) (h : mkIv exons st cds sn sy id par = .ok x)
+    (hg : good exons = true) (hgc : ∀ cb, cds = some cb → good cb = true) (hw : inWindow par exons = true) :
+    wf x = true ∧ x = ⟨exons, st, cds, sn, sy, id, par⟩ := by
+  unfold mkIv at h
+  cases exons with
+  | nil => simp [throw, throwThe, MonadExceptOf.throw] at h
+  | cons e0 erest =>
+    simp only at h
+    split at h
+    · simp [throw, throwThe, MonadExceptOf.throw] at h
+    · cases cds with
+      | none =>
+        simp only [pure, Except.pure, Except.ok.injEq] at h
+        subst h
+        simp [wf, hg, hw]
+      | some cb =>
+        cases cb with
+        | nil => simp [throw, throwThe, MonadExceptOf.throw] at h
+        | cons c0 crest =>
+          simp only at h
+          split at h
+          · simp [throw, throwThe, MonadExceptOf.throw] at h
+          · split at h
+            · simp [throw, throwThe, MonadExceptOf.throw] at h
+            · split at h
+              · simp [throw, throwThe, MonadExceptOf.throw] at h
+              · split at h
+                · simp [throw, throwThe, MonadExceptOf.throw] at h
+                · simp only [pure, Except.pure, Except.ok.injEq] at h
+                  subst h
+                  have := hgc _ rfl
+                  simp only [wf, hg, hw, this, Bool.true_and, Bool.and_eq_true, decide_eq_true_eq]
+                  refine ⟨⟨by omega, by omega⟩, trivial⟩
 
 end BioCantor.Proofs.Bed
